@@ -62,6 +62,7 @@ def run_shard(spec, res):
             rng = histrun.hist_rng(spec, i)
             svc.fresh()
             gen = HistoryGen(rng, Names(rng), WEIGHTS)
+            gen.dup_list = True
             histrun.run_history(svc, gen, spec['steps'], [monitors.c08], res,
                                 hist_id=i)
             res.count('histories')
